@@ -472,6 +472,11 @@ class TreeSim(WorldBase):
             f = h["fiber"]
             if any(x is f for lv in ob.levels(src.root) for x in lv) or f.getOwner() is not None:
                 raise Skip("not an orphan")
+            # decided BEFORE the library is called: fromFiber re-owns every fiber below f, so a sub-fiber that a live
+            # tensor holds (an earlier adoption of a lower orphan) would be taken away from it by the simulator itself
+            live = {id(x) for sl2 in self.slots.values() for lv in ob.levels(sl2.root) for x in lv}
+            if any(id(x) in live or x.getOwner() is not None for lv in ob.levels(f) for x in lv):
+                raise Skip("shares fibers with a live tensor")
             below = src.depth - h["level"]
             if below < 1 or ob.wellformed(f, below):
                 raise Skip("orphan is not a tree of uniform depth")
